@@ -142,6 +142,9 @@ class MachO(BinFormat):
         f.seek(0)
         while lcsize < self.header.sizeofcmds:
             cmd = struct_load_command(f, offset)
+            if cmd.cmdsize < len(cmd):
+                # a command smaller than its own header would never advance:
+                raise MachOError("bad load command size:\n%s" % cmd)
             data = f[offset : offset + cmd.cmdsize]
             offset += cmd.cmdsize
             lcsize += cmd.cmdsize
@@ -365,6 +368,9 @@ class MachO(BinFormat):
             elif op == BIND_OPCODE_SET_SYMBOL_TRAILING_FLAGS_IMM:
                 r.flags = im
                 nulchar = raw.find(b"\0", cur)
+                if nulchar < 0:
+                    # unterminated symbol: cur would restart from 0 forever
+                    raise MachOError("unterminated symbol in bind opcodes")
                 if nulchar > cur:
                     r.symbol = raw[cur:nulchar]
                 cur = nulchar + 1
